@@ -23,6 +23,8 @@ var validTemplates = []string{
 	"send [USD 10] (\n source = { 9223372036854775808/18446744073709551616 from @a 9223372036854775808/18446744073709551616 from @b }\n destination = { 1/18446744073709551616 to @d 18446744073709551615/18446744073709551616 to @e }\n)",
 	"send [USD 10] (\n source = { 1/2 from @a 4611686018427387904/9223372036854775808 from @b }\n destination = { 9223372036854775807/18446744073709551615 to @d 9223372036854775808/18446744073709551615 to @e }\n)",
 	"send [USD 10] (\n source = @world\n destination = { 50.00000000000000000000000000000000000000000000000000000000000000% to @d remaining to @e }\n)",
+	"vars {\n account $acc1\n asset $ass1\n}\nsave [$ass1 *] from $acc1\nsend [USD 100] (\n source = { $acc1 allowing unbounded overdraft }\n destination = @d\n)\nsend [USD 5] (\n source = @world\n destination = @e\n)",
+	"save [USD *] from @a\nset_tx_meta(\"k\", 1)\nsend [USD 5] (\n source = @world\n destination = @e\n)\nsend [USD *] (\n source = @a\n destination = @e\n)\nsend [USD 5] (\n source = @b allowing unbounded overdraft\n destination = @e\n)",
 	// valid by the static rules, but with warnings: none of them may be of error severity
 	"vars {\n number $num1\n}\nsend [USD 1] (\n source = @a\n destination = @d\n)",
 	"send [USD 1] (\n source = { 1/2 from @a 1/2 from @b remaining from @c }\n destination = { 100% to @d remaining kept }\n)",
@@ -38,6 +40,7 @@ var nameTemplates = [][2]string{
 	{"vars {\n account $x\n asset $y\n monetary $z = balance($x, $y)\n}\nsend $z (\n source = @world\n destination = $x\n)", "x,y,z"},
 	{"vars {\n monetary $x\n monetary $y\n}\nsend [USD 1] (\n source = { max $x from @a @b allowing overdraft up to $y }\n destination = { max $x to @d remaining kept }\n)", "x,y"},
 	{"vars {\n portion $x\n string $y\n}\nsend [USD 1] (\n source = { $x from @a remaining from @b }\n destination = @d\n)\nset_tx_meta($y, $x)", "x,y,q"},
+	{"vars {\n account $x\n monetary $y\n account $z\n}\nsend [USD 1] (\n source = { $x allowing unbounded overdraft max $y from $z }\n destination = @d\n)\nsend [USD 1] (\n source = { @world $z allowing overdraft up to $y }\n destination = $x\n)", "x,y,z"},
 	{"vars {\n asset $x\n number $y\n}\nset_tx_meta(\"fee\", [$x $y])\nset_account_meta(@a, \"k\", [USD $y])", "x,y,q"},
 	{"vars {\n number $x\n asset $y\n account $z\n}\nsave [$y $x] from $z\nset_account_meta($z, \"k\", $x + $x)", "x,y,z"},
 }
@@ -53,7 +56,7 @@ func init() {
 			}
 			nt := nameTemplates
 			if tier != "thorough" {
-				nt = nt[:6]
+				nt = nt[:7]
 			}
 			for _, t := range nt {
 				cases = append(cases, Case{ID: "names " + strings.ReplaceAll(t[0], "\n", " "), Pkg: "internal/analysis", Fn: "ZZC16Names", Args: []string{t[0], t[1]}, Tag: "names"})
